@@ -497,13 +497,15 @@ def xhist_after_task(task: Dict[str, Any]) -> Dict[str, Any]:
 
     t0 = time.time()
     adapter = envs.get(task["env"])
-    other_history(adapter, task["first_cfg"], task["seed"])
+    firsts = task["first_cfgs"]
+    for k, fc in enumerate(firsts):
+        other_history(adapter, fc, task["seed"] + k)
     dg = history_digest(adapter, task["cfg"], task["seed"])
-    return {"task": {"prop": "C02", "env": task["env"], "cfg": task["cfg"]["id"] + "<after>" + task["first_cfg"]["id"], "shard": task["shard"]},
+    return {"task": {"prop": "C02", "env": task["env"], "cfg": task["cfg"]["id"] + "<after>" + "+".join(f["id"] for f in firsts), "shard": task["shard"]},
             "runs": 1, "attempted": 1, "steps": len(dg), "faults": {"OTHER_HISTORY": 1}, "policies": {}, "transports": {"JIT": len(dg)},
             "probes": {}, "checks": {"history_digests": len(dg)}, "states": b"", "n_states": 0, "digests": [], "nontrivial": [], "samples": [],
             "violations": [], "det_ok": None, "wall": time.time() - t0,
-            "xhist": {"env": task["env"], "cfg": task["cfg"], "first_cfg": task["first_cfg"], "role": "after", "digest": dg}}
+            "xhist": {"env": task["env"], "cfg": task["cfg"], "first_cfgs": firsts, "role": "after", "digest": dg}}
 
 
 def xhist_compare(results: List[Dict[str, Any]], seed: int) -> List[Dict[str, Any]]:
@@ -523,8 +525,8 @@ def xhist_compare(results: List[Dict[str, Any]], seed: int) -> List[Dict[str, An
         out.append({"property": "C02", "env": x["env"], "config": x["cfg"], "seed": seed, "shard": 0, "run": 0,
                     "monitor": "history_independence", "class": "responses_depend_on_earlier_use_of_another_configuration",
                     "detail": f"response #{first} of the fixed request sequence on {x['cfg']['id']} differs between a fresh process and a process "
-                              f"that had used {x['first_cfg']['id']} before",
-                    "ops": {"xhist": True, "first_cfg": x["first_cfg"]}, "ops_unminimised": {}})
+                              f"that had used {[f['id'] for f in x['first_cfgs']]} before",
+                    "ops": {"xhist": True, "first_cfgs": x["first_cfgs"]}, "ops_unminimised": {}})
     return out
 
 
@@ -618,10 +620,10 @@ def replay_xhist(v: Dict[str, Any], path: str) -> int:
     import sys
 
     outs = []
-    for first in (None, v["ops"]["first_cfg"]):
+    for first in (None, v["ops"]["first_cfgs"]):
         code = ("import json,sys; from jsim.worker import _init_jax; _init_jax(); from jsim import envs, puresim; "
                 "a=envs.get(sys.argv[1]); cfg=json.loads(sys.argv[2]); first=json.loads(sys.argv[3]); seed=int(sys.argv[4]); "
-                "first and puresim.other_history(a, first, seed); print('XD', json.dumps(puresim.history_digest(a, cfg, seed)))")
+                "[puresim.other_history(a, f, seed + k) for k, f in enumerate(first or [])]; print('XD', json.dumps(puresim.history_digest(a, cfg, seed)))")
         p = subprocess.run([sys.executable, "-c", code, v["env"], json.dumps(v["config"]), json.dumps(first), str(v["seed"])],
                            capture_output=True, text=True, env=dict(os.environ), timeout=1800)
         line = [ln for ln in p.stdout.splitlines() if ln.startswith("XD ")]
@@ -632,7 +634,7 @@ def replay_xhist(v: Dict[str, Any], path: str) -> int:
     if outs[0] != outs[1]:
         print(f"VIOLATION property=C02 replay={path}")
         print(f"  env={v['env']} config={v['config']['id']} monitor={v['monitor']} class={v['class']}: responses differ between a fresh process and "
-              f"one that used {v['ops']['first_cfg']['id']} first")
+              f"one that used {[f['id'] for f in v['ops']['first_cfgs']]} first")
         return 1
     print(f"replay: no violation of class {v['monitor']}/{v['class']} reproduced from {path}")
     return 0
